@@ -31,6 +31,8 @@ type ptField struct {
 	tags   []ptTag // existing tags, in order
 	rawTag string  // when set: a tag literal that does not parse
 	hasLit bool
+	nested *ptStruct // the field's type holds this anonymous struct
+	wrap   string    // "", "[]", "*", "map[string]": what stands in front of the nested struct
 }
 type ptTag struct{ key, name, opts string }
 
@@ -39,6 +41,17 @@ type ptStruct struct {
 	fields []ptField
 	local  bool // declared inside a function
 	anon   bool // anonymous struct in a var declaration
+	inner  bool // lives inside a field type of the struct before it (not a declaration of its own)
+}
+
+func (s *ptStruct) body(indent string) string {
+	var fb strings.Builder
+	fb.WriteString("struct {\n")
+	for _, f := range s.fields {
+		fb.WriteString(indent + "\t" + f.render() + "\n")
+	}
+	fb.WriteString(indent + "}")
+	return fb.String()
 }
 
 func (f *ptField) firstName() string {
@@ -54,7 +67,9 @@ func (f *ptField) firstName() string {
 
 func (f *ptField) render() string {
 	var b strings.Builder
-	if len(f.names) > 0 {
+	if f.nested != nil {
+		b.WriteString(strings.Join(f.names, ", ") + " " + f.wrap + f.nested.body("\t"))
+	} else if len(f.names) > 0 {
 		b.WriteString(strings.Join(f.names, ", ") + " " + f.typ)
 	} else {
 		b.WriteString(f.embed)
@@ -178,6 +193,9 @@ func renderFile(structs []ptStruct) string {
 	var b strings.Builder
 	b.WriteString("package sample\n\nimport \"time\"\n\nvar _ time.Time\n\ntype Embedded struct {\n\tE int `plenc:\"1\"`\n}\ntype lowerEmbedded struct{}\n\n")
 	for _, s := range structs {
+		if s.inner {
+			continue
+		}
 		body := func() string {
 			var fb strings.Builder
 			fb.WriteString("struct {\n")
@@ -302,6 +320,45 @@ func runC20(c *Ctx) {
 				s.anon = true
 			}
 			structs = append(structs, s)
+			// an anonymous struct inside a field type: a struct of its own for the tool (the walk
+			// must reach it whatever the state of the enclosing struct's tags)
+			if c.rng.Chance(25) {
+				in := genPtStruct(c.rng, fmt.Sprintf("S%dIn", k))
+				for i := range in.fields {
+					if len(in.fields[i].names) == 0 { // no embedding inside the nested struct
+						in.fields[i].names = []string{fmt.Sprintf("E%d", i)}
+						in.fields[i].embed = ""
+					}
+				}
+				in.inner = true
+				outer := &structs[len(structs)-1]
+				fullyTagged := c.rng.Chance(50)
+				if fullyTagged {
+					// every field of the enclosing struct already carries a plenc tag
+					for i := range outer.fields {
+						f := &outer.fields[i]
+						has := false
+						for _, t := range f.tags {
+							if t.key == "plenc" {
+								has = true
+							}
+						}
+						if !has || f.rawTag != "" {
+							f.rawTag = ""
+							f.hasLit = true
+							f.tags = []ptTag{{"plenc", strconv.Itoa(50 + i), ""}}
+						}
+					}
+				}
+				hold := ptField{names: []string{"Nest"}, nested: &in, wrap: []string{"", "[]", "*", "map[string]"}[c.rng.Intn(4)], typ: "struct{}", rtyp: nil}
+				if fullyTagged {
+					hold.hasLit = true
+					hold.tags = []ptTag{{"plenc", "49", ""}}
+				}
+				outer.fields = append(outer.fields, hold)
+				outer.local = outer.local || false
+				structs = append(structs, in)
+			}
 		}
 		src := renderFile(structs)
 		if _, err := format.Source([]byte(src)); err != nil {
@@ -396,7 +453,13 @@ func runC20(c *Ctx) {
 			allIns = append(allIns, "["+strings.Join(ins, "; ")+"]")
 			allOuts = append(allOuts, "["+strings.Join(outs, "; ")+"]")
 			// plenc must accept the tagged struct (when nothing was in error and every field is taggable)
-			if !reported && !s.local {
+			hasNested := s.inner
+			for _, f := range s.fields {
+				if f.nested != nil {
+					hasNested = true
+				}
+			}
+			if !reported && !s.local && !hasNested {
 				if err := plencAccepts(s, tags, cfgPriv); err != nil {
 					class := "plenctag-result-rejected"
 					if multi {
